@@ -557,6 +557,7 @@ expr_t::parser_t::parse(std::istream&           in,
                         const optional<string>& original_string)
 {
   nesting_depth = 0;
+  token_count   = 0;
 
   try {
     ptr_op_t top_node = parse_value_expr(in, flags);
